@@ -90,7 +90,7 @@ def gen_raw(rng):
 
 def gen_pattern(rng, r, c, min_entries=0):
     """sparse pattern with empty rows; returns list of sorted column lists"""
-    style = rng.choice(["empty-rows", "sparse", "dense", "one", "first-last-empty"])
+    style = rng.choice(["empty-rows", "sparse", "dense", "one", "first-last-empty", "lead2-mid-empty", "lead2-mid-empty"])
     rows = []
     for i in range(r):
         if style == "dense":
@@ -102,6 +102,14 @@ def gen_pattern(rng, r, c, min_entries=0):
             if style == "empty-rows" and rng.random() < 0.5:
                 cols = []
         rows.append(cols)
+    if style == "lead2-mid-empty" and r >= 4 and c > 0:
+        # >= 2 leading empty rows, an empty row in the middle, entries behind it (writer row-advance `while`)
+        rows = [[j for j in range(c) if rng.random() < 0.6] or [rng.randrange(c)] for _ in range(r)]
+        rows[0] = []
+        rows[1] = []
+        rows[2 + (r - 2) // 2] = [] if r > 4 else rows[2 + (r - 2) // 2]
+        if r == 4:
+            rows[2] = []
     if style == "first-last-empty" and r > 0:
         rows[0] = []
         rows[-1] = []
@@ -140,7 +148,7 @@ def kind_args(rng, kind, val, binary, same_dt=True, same_it=True):
         return fl([val(rng) for _ in range(2 * n)])
     if kind == "sv":
         size = rng.choice([1, 2, 5, 9, 1500])
-        k = rng.randrange(0 if binary else 1, min(size, 5) + 1)
+        k = rng.randrange(0, min(size, 5) + 1)
         idx = sorted(rng.sample(range(size), k))
         return "%d 1 %s %s" % (size, nl(idx), fl([val(rng) for _ in idx]))
     if kind == "dm":
@@ -207,8 +215,6 @@ def gen_txt(rng, exact=True):
     dt, it = rng.choice([4, 8]), rng.choice([4, 8])
     val = exact_print_val if exact else inexact_val
     args = kind_args(rng, kind, val, False)
-    if mode == "exp" and args == "0":
-        args = fl([val(rng) for _ in range(2 if kind == "dvb" else 1)])
     return "%s %s %s %d %d %s" % ("txt" if exact else "txtr", kind, mode, dt, it, args)
 
 
@@ -453,6 +459,111 @@ def gen_cpdup(rng):
     return cpx_case(names, None, [0], indiv=0)
 
 
+# ---- boundary sizes: sizes / indices / counts around 127|128, 255|256, 1000|1001 (SparseVector allocation step
+# min(size, 1000)), multiples of 4 (MemoryPool rounds allocations up to 4 elements), multiples of 8/16 (serialisation
+# padding), 64 KiB blobs, 2^15/2^16 rows; the interesting content sits at the high end ------------------------------
+
+def _csr_high(n, c, dt, it, op="txt csr mtx"):
+    """n rows: two leading empty rows, an empty row in the middle, entries only in the last rows / highest columns"""
+    rows = [[] for _ in range(n)]
+    for i in range(max(2, n - 4), n):
+        rows[i] = sorted({c - 1, (i * 7) % c, max(0, c - 2)})
+    if n >= 8:
+        rows[n // 2 + 1] = [c - 1]
+        rows[n // 2] = []
+    rp, ci = [0], []
+    for cols in rows:
+        ci += cols
+        rp.append(len(ci))
+    vals = [Fraction(2 * k + 1, 8) for k in range(len(ci))]
+    if op.startswith("txt"):
+        return "%s %d %d %d %d 1 %s %s %s" % (op, dt, it, n, c, nl(rp), nl(ci), fl(vals))
+    return "%d %d 0 %s %s %s" % (n, c, nl(rp), nl(ci), fl(vals))
+
+
+def boundary_cases(tier):
+    sizes = [3, 4, 5, 7, 8, 9, 15, 16, 17, 31, 32, 33, 127, 128, 129, 255, 256, 257, 1000, 1001]
+    big = [32767, 32768, 65535, 65536, 65537] if tier == "thorough" else []
+    out = []
+    for k, n in enumerate(sizes + big):
+        dt, it = [(8, 8), (4, 4), (8, 4), (4, 8)][k % 4]
+        dt2, it2 = [(4, 8), (8, 4), (4, 4), (8, 8)][k % 4]
+        vals = [Fraction(0)] * (n - 3) + [Fraction(2 * n + 1, 4), Fraction(-n), Fraction(n, 8)] if n >= 3 else []
+        # dense vectors: binary at changed widths (file types float/u64: padding when n is odd), both text modes
+        out.append("kind dv 0 %d %d %d %d %s" % (dt, it, dt2, it2, fl(vals)))
+        out.append("kind dv 1 %d %d 8 8 %s" % (dt, it, fl(vals)))
+        out.append("txt dv mtx %d %d %s" % (dt, it, fl(vals)))
+        out.append("txt dv exp %d %d %s" % (dt, it, fl(vals)))
+        if n % 2 == 0:
+            out.append("txt dvb mtx %d %d %s" % (dt, it, fl(vals)))
+        # sparse vector of size n (allocation step min(n, 1000)), entries at the highest indices
+        idx = [n - 3, n - 2, n - 1]
+        out.append("kind sv 0 %d %d %d %d %d 1 %s %s" % (dt, it, dt2, it2, n, nl(idx), fl(vals[-3:])))
+        out.append("txt sv mtx %d %d %d 1 %s %s" % (dt, it, n, nl(idx), fl(vals[-3:])))
+        # CSR: n x n and n x 3, leading / middle empty rows, entries in the last rows and the last column
+        out.append(_csr_high(n, n, dt, it))
+        out.append(_csr_high(n, 3, dt, it))
+        out.append("kind csr 0 %d %d %d %d %s" % (dt, it, dt2, it2, _csr_high(n, n, dt, it, op="")))
+        # dense matrix 1 x n and n x 1
+        if n <= 1001:
+            out.append("txt dm mtx %d %d 1 %d %s" % (dt, it, n, fl(vals)))
+            out.append("txt dm mtx %d %d %d 1 %s" % (dt, it, n, fl(vals)))
+        # raw container: array sizes n and n+1 next to each other, index values at the top of the 32-bit range
+        if n <= 1001:
+            ix = [0] * (n - 1) + [2 ** 32 - 1]
+            out.append("raw 4 4 %d %d %d %d %s 1 5/8 2 %s %s 2 %s %s" % (
+                dt, it, dt2, it2, nl([n, 2 ** 40 + n]), fl(vals), fl(vals + [Fraction(1, 2)]), nl(ix), nl(ix + [7])))
+    # blobs around 64 KiB: checkpoint of a vector with 8190..8193 doubles (65.5 KiB) next to a small object with a
+    # nearly equal name; DistFileIO buffers of 65535/65536/65537 bytes
+    for n in (8190, 8192, 8193):
+        big_v = [Fraction(0)] * (n - 1) + [Fraction(n, 2)]
+        out.append("cpx 0 2 %s dv %s %s dv 1 7/1 2 1 0" % (hexname("u"), fl(big_v), hexname("U")))
+    for n in (65535, 65536, 65537):
+        blob = bytes((i * 131 + n) % 256 for i in range(n))
+        out.append("dfio %s %s" % (hexname(b"\x01\x02"), hexname(blob)))
+    # three-digit decimal exponents (doubles only; judged to printed precision, not compared with the model)
+    out.append("txtr dv mtx 8 8 %s" % fl([Fraction(2) ** 400, Fraction(-1, 2 ** 400), Fraction(3, 2 ** 1000), Fraction(5 * 2 ** 900)]))
+    out.append("txtr dv exp 8 8 %s" % fl([Fraction(2) ** 333, Fraction(1, 2 ** 333)]))
+    return out
+
+
+def boundary_size(case):
+    """the governing size of a boundary case (for the histogram and the model filter)"""
+    t = case.split()
+    try:
+        if t[0] == "kind":
+            return int(t[7]) if t[1] in ("dv", "sv", "csr") else 0
+        if t[0] in ("txt", "txtr"):
+            return int(t[5])  if t[1] != "dm" else int(t[5]) * int(t[6])
+        if t[0] == "raw":
+            return int(t[8])
+        if t[0] == "dfio":
+            return len(t[2]) // 2
+        if t[0] == "cpx":
+            return int(t[5])
+    except (ValueError, IndexError):
+        pass
+    return 0
+
+
+def describe_boundary(case):
+    t = case.split()
+    return ["size:%d" % boundary_size(case), "op:%s %s" % (t[0], t[1] if t[0] in ("kind", "txt", "txtr") else "")]
+
+
+def boundary_model_filter(case):
+    """the list-based Lean model is quadratic in some sizes: beyond 4096 only the linear paths are compared"""
+    t = case.split()
+    if t[0] == "txtr":
+        return False
+    if t[0] in ("cpx", "dfio"):
+        return True
+    n = boundary_size(case)
+    if n <= 4096:
+        return True
+    return t[0] == "txt" and t[1] in ("dv", "dvb")
+
+
 def gen_cases(rng, count):
     cases = []
     for _ in range(count):
@@ -504,9 +615,6 @@ CORPUS = [
 # of failing the run. The flag says whether the Lean model reproduces the outcome (then model and
 # implementation are compared as well).
 KNOWN_EDGE = [
-    ("txt dv exp 8 8 0", True, "F1"),                       # length-0 DenseVector reads back with an extra size-0 array
-    ("txt dvb exp 8 8 0", True, "F3"),                      # length-0 blocked vector reads back with an extra array
-    ("txt sv mtx 8 8 5 1 0 0", True, "F4"),                 # empty SparseVector reads back owning two size-0 arrays
     ("kind csr 0 8 8 8 8 3 3 0 4 0 0 0 0 0 0", False, "F5"),  # CSR(3,3): operator== dereferences a null row_ptr
     ("txt csr mtx 8 8 3 3 0 4 0 0 0 0 0 0", True, "F5"),    # CSR(3,3): write_out(fm_mtx) dereferences a null row_ptr
     ("txt csr mtx 8 8 0 0 0 1 0 0 0", False, "F5"),         # CSR(0,0) text round trip: operator== crashes
@@ -523,6 +631,9 @@ FIXED_EDGE = [
     "kind csr 0 8 8 8 8 3 3 1 4 0 0 0 0 0 0",
     "kind bm 0 8 8 8 8 3 3 0 0",
     "cp 0 0",
+    # F1/F3/F4 (fixed 80716f0b5, 35c268b8a, 977a6be87): empty vectors through the text modes
+    "txt dv exp 8 8 0", "txt dv exp 4 4 0", "txt dvb exp 8 8 0", "txt dvb exp 4 8 0",
+    "txt sv mtx 8 8 5 1 0 0", "txt sv mtx 4 4 1 1 0 0", "txt sv mtx 8 4 1500 1 0 0",
 ]
 
 
@@ -1018,6 +1129,16 @@ def main(argv):
     streams = [vlib.Stream("persist", cases, [binary], vlib.driver_cmd(PROP), oracle=oracle, nontrivial=nontrivial,
                            describe=describe, signature=signature, canon=canon,
                            model_filter=lambda c: not c.startswith("txtr"))]
+    if not args.replay:
+        bcases = boundary_cases(args.tier)
+        streams.append(vlib.Stream("boundary-sizes", [c for c in bcases if boundary_model_filter(c)], [binary],
+                                   vlib.driver_cmd(PROP), oracle=oracle, nontrivial=lambda c: True,
+                                   describe=describe_boundary, signature=signature, canon=canon))
+        # sizes where the list-based Lean model is quadratic (and the three-digit exponents, which are judged to
+        # printed precision): implementation + independent oracle only, the model is not run
+        streams.append(vlib.Stream("boundary-sizes-large", [c for c in bcases if not boundary_model_filter(c)],
+                                   [binary], None, oracle=oracle, nontrivial=lambda c: True,
+                                   describe=describe_boundary, signature=signature, canon=canon))
     if edge:
         streams.append(vlib.Stream("known-edge", edge, [binary], vlib.driver_cmd(PROP), oracle=oracle,
                                    nontrivial=lambda c: False, describe=lambda c: ["edge:" + " ".join(c.split()[:3])],
